@@ -52,3 +52,47 @@ func jointReplacement(ev *document.PaceCamEvidence) (newChipKaPub, newEcad []byt
 	k2 := enc(nx, ny)
 	return curve.EncodePoint(nx, ny), refcrypto.CBCEncrypt(alg, k2, iv(k2), refcrypto.Pad(ca, 16)), true
 }
+
+// ecadVariants re-encrypts the chip-authentication data under the SAME session key with a plaintext that is
+// arithmetically related to the genuine one: CA_IC + n (n = group order), 00 || CA_IC, and the genuine padded
+// plaintext followed by a further all-zero block. Whoever holds the bundle can do this (TermKaPri is stored).
+func ecadVariants(ev *document.PaceCamEvidence) map[string][]byte {
+	name := refchip.StdCurve(ev.ParameterId)
+	if name == "" || len(ev.PaceOid) == 0 || len(ev.EcadIC)%16 != 0 || len(ev.EcadIC) == 0 {
+		return nil
+	}
+	curve := refpki.CurveByName(name)
+	var alg refcrypto.Alg
+	switch ev.PaceOid[len(ev.PaceOid)-1] {
+	case 2:
+		alg = refcrypto.AES128
+	case 3:
+		alg = refcrypto.AES192
+	case 4:
+		alg = refcrypto.AES256
+	default:
+		return nil
+	}
+	t := new(big.Int).SetBytes(ev.TermKaPri)
+	cx, cy, ok := curve.DecodePoint(ev.ChipKaPub)
+	if !ok {
+		return nil
+	}
+	kx, _ := curve.ScalarMult(cx, cy, t)
+	k := refcrypto.KDF(kx.FillBytes(make([]byte, curve.ByteLen())), 1, alg)
+	iv := refcrypto.ECBEncryptBlock(alg, k, bytes.Repeat([]byte{0xFF}, 16))
+	ca, err := refcrypto.Unpad(refcrypto.CBCDecrypt(alg, k, iv, ev.EcadIC))
+	if err != nil {
+		return nil
+	}
+	enc := func(pt []byte) []byte { return refcrypto.CBCEncrypt(alg, k, iv, pt) }
+	plusN := new(big.Int).Add(new(big.Int).SetBytes(ca), curve.N)
+	w := len(ca)
+	if (plusN.BitLen()+7)/8 > w {
+		w = (plusN.BitLen() + 7) / 8
+	}
+	return map[string][]byte{
+		"ecad-of-scalar-plus-group-order": enc(refcrypto.Pad(plusN.FillBytes(make([]byte, w)), 16)),
+		"ecad-of-scalar-with-leading-00":  enc(refcrypto.Pad(append([]byte{0}, ca...), 16)),
+	}
+}
